@@ -228,4 +228,53 @@ PROPS["C09"] = dict(
           "checked on an enumerated bounded family against the running contextlib.",
     note="contextlib private attributes (_exit_callbacks, gen, func/args/kwds) assumed as observed on the running interpreter; "
          "description TEXT beyond the method name is not specified; varname f-string not decoded deductively (leg checks it)")
+PROPS["C07"] = dict(
+    level="other", contracts=["contracts.glue_small", "contracts.c04"],
+    unit_filter=lambda u: u.name.startswith("C07.") or u.name in ("C04.try_from", "C04.slice_block", "C04.limit_block"),
+    legs=[dict(name="c07_threads", cmd="PYTHONPATH={repo} " + PY312 + " legs/c07_threads.py")],
+    technique=TECH + "; bounded blocked-thread leg and sampled racing-thread stress",
+    explanation="Deductive part (all inputs): unwrap_thread returns [] unless the thread was alive BEFORE and AFTER the sys._current_frames() "
+                "read (in that order: the read is bracketed by the two liveness checks) and a frame was found, else StackSlice(inner=that "
+                "frame); with the C04 contracts (try_from: the f_back chain of that frame, outermost first) every reported frame is on the "
+                "f_back chain of the thread's current frame, hence belongs to that thread (CPython axiom). Bounded part: a thread blocked at a "
+                "fixed point, depth 1..6 x manager nesting 0..2: frames == f_back truth, exact contexts, no warning; nothing before start / "
+                "after finish. NOT decided: 'never crashes nor raises under every interleaving' and the consistency of the low-level snapshot "
+                "(inspect_frame's retry loop is not under contract; the racing-thread stress is a sample, not an exploration of schedules; "
+                "no yield-point hooks were added to /repo because no engine of this family would consume them).",
+    claim="unwrap_thread's liveness bracketing and its composition with the slicing contracts proved; blocked-thread exactness checked on a "
+          "bounded exhaustive family; memory safety under races and the snapshot-validation protocol remain unverified assumptions.",
+    note="memory safety / crash-freedom of the ctypes reads under concurrent modification is assumed, not checked; schedules are not explored")
+PROPS["C14"] = dict(
+    level="other", contracts=["contracts.glue_small", "contracts.c12", "contracts.extract_iter"],
+    unit_filter=lambda u: u.name.startswith("C14.") or u.name in ("C12.customize_it", "C12.customize", "C05.extract_iter"),
+    legs=[dict(name="c14_trio", cmd="PYTHONPATH={repo} " + PY312 + " legs/c14_trio.py")],
+    technique=TECH + "; bounded Trio task-tree leg",
+    explanation="Deductive part: unwrap_task(t) == t.coro; elaborate_nursery sets obj = manager._nursery and children == "
+                "[extract_child(t, for_task=True) for t in obj.child_tasks] in iteration order (element-wise, via the comprehension schema); "
+                "trap customisations are hide+prune through the proved customize/customize_it contracts; the insert / prune depth rule that "
+                "the thread-hop elaborators rely on (a prune issued from the inserted thread stack stops at next_inner) is the proved "
+                "C10.step.push clause. The isomorphism with Trio's own tree additionally needs the C01 contract on Trio's frames (bounded only) "
+                "and Trio's axioms (task.child_nurseries order, nursery.child_tasks): decided by the bounded leg: 161 task trees (depth<=2, "
+                "fan<=2, 0..2 nested nurseries, blocked in body or __aexit__, 4 body endings) compared with task.child_nurseries / "
+                "nursery.child_tasks by identity, stub children without recursion, and to_thread/from_thread ping-pong of depth 0..2 "
+                "(thorough 3).  The thread-hop elaborators read Trio-private locals by name and are not under contract.",
+    claim="Glue contracts proved; tree isomorphism and thread hops checked on an enumerated bounded family against the running Trio 0.34.",
+    note="Trio internals assumed (manager._nursery, nursery.child_tasks, task.coro, private locals of to_thread/from_thread); CPython 3.12 only")
+PROPS["C15"] = dict(
+    level="other", contracts=["contracts.glue_small", "contracts.c04"],
+    unit_filter=lambda u: u.name.startswith("C15.") or u.name in ("C04.try_from", "C04.slice_block", "C04.limit_block"),
+    legs=[dict(name="c15_greenlets", cmd="PYTHONPATH={repo} " + PY312 + " legs/c15_greenlets.py")],
+    technique=TECH + "; bounded greenlet / greenback leg",
+    explanation="Deductive part (all inputs): unwrap_greenlet by cases — dead or unstarted -> []; running but not the caller's current greenlet -> "
+                "RuntimeError; current -> StackSlice(inner=true caller, outer=a frame on the caller's f_back chain whose f_back is the "
+                "parent's switch frame or None; no outer bound for the main greenlet); suspended -> StackSlice(inner=gr_frame, outer=the end "
+                "of ITS OWN f_back chain), which with the proved slicing contracts of C04 gives exactly the frames from its entry function "
+                "to its switch point whoever asks (this is the F8 repair; both walks are cut by invariants). Minimality of the outer bound "
+                "for the current greenlet is not expressed deductively. greenback: the three elaborators discriminate on greenback-private "
+                "locals and the shape of the next frame and are not under contract. Bounded leg: parent chains of depth 1..3 x call depth "
+                "1..3 inspected from main and from a descendant, the current greenlet, unstarted/dead, a greenlet running in another thread "
+                "(child and that thread's main greenlet), greenback alternation depth 0..3 from outside and inside the task.",
+    claim="unwrap_greenlet's case analysis proved and composed with the C04 slicing contracts; greenback bridges and end-to-end stacks "
+          "checked on an enumerated bounded family against the running greenlet 3 / greenback.",
+    note="greenlet semantics assumed (gr_frame None when running/dead/unstarted, truthiness); greenback internals not modelled; CPython only")
 NOT_APPLICABLE = {}
